@@ -51,6 +51,12 @@ class Ctx:
         self.orig_syms = [s for _, s in self.syms.values()]
         self.copy = None
         self.extra = 0
+        self.ifaces = {}       # id(interface object) -> (int, obj)
+        for _, s in sorted(self.syms.values(), key=lambda t: t[0]):
+            if id(s.interface) not in self.ifaces:
+                self.ifaces[id(s.interface)] = (len(self.ifaces), s.interface)
+        self.F = len(self.ifaces)
+        self.nif = self.F
 
     # -- symbols -------------------------------------------------------------------------------
     def reg(self, sym, idx=None):
@@ -83,6 +89,14 @@ class Ctx:
             self.extra += 1
             self.syms[id(sym)] = (900000 + self.extra, sym)
         return self.syms[id(sym)][0]
+
+    def iid(self, sym):
+        """identity number of the interface object of a symbol"""
+        o = sym.interface
+        if id(o) not in self.ifaces:
+            self.extra += 1
+            self.ifaces[id(o)] = (900000 + self.extra, o)
+        return self.ifaces[id(o)][0]
 
     def nid(self, node):
         if id(node) not in self.nodes:
@@ -126,15 +140,34 @@ class Ctx:
     def export(self):
         trees = [self.tree(r) for r in self.roots]
         recs = {}
+
+        def rec(s):
+            return [self.name_id(s.name), [self.sid(d) for d in sym_deps(s)], self.iid(s), fresh_iface(s)]
         for i, s in list(self.syms.values()):
-            recs[i] = [self.name_id(s.name), [self.sid(d) for d in sym_deps(s)]]
+            recs[i] = rec(s)
         # dependencies may have registered unknown objects
         for i, s in list(self.syms.values()):
             if i not in recs:
-                recs[i] = [self.name_id(s.name), [self.sid(d) for d in sym_deps(s)]]
-        table = [recs.get(i, [0, []]) for i in range(self.nsym)]
+                recs[i] = rec(s)
+        table = [recs.get(i, [0, [], 0, 0]) for i in range(self.nsym)]
         stray = sorted(i for i in recs if i >= self.nsym)
-        return [[self.nsym, self.nnode], table, trees], stray
+        acc = {i: access_of(o) for i, o in self.ifaces.values()}
+        stray += sorted(900000 + i for i in acc if i >= self.nif)
+        accs = [acc.get(i, 0) for i in range(self.nif)]
+        return [[self.nsym, self.nnode, self.nif], table, accs, trees], stray
+
+
+def fresh_iface(sym):
+    """does copying the symbol (copy() + deep_copy) give the copy an interface object of its own?"""
+    from psyclone.psyir.symbols import Symbol, ContainerSymbol
+    # pylint: disable=unidiomatic-typecheck
+    return 1 if (type(sym) is Symbol or isinstance(sym, ContainerSymbol) or sym.is_import) else 0
+
+
+def access_of(iface):
+    """the mutable state of an interface object as a number"""
+    a = getattr(iface, "access", None)
+    return 0 if a is None else int(a.value)
 
 
 def local(table, name):
@@ -295,7 +328,9 @@ def do_copy(ctx, r):
                                 f"copied scope is shared by the table of the copy", "expected": "a new symbol"}
                 elif o is not None:
                     ctx.syms[id(s)] = (ctx.syms[id(o)][0] + ctx.M, s)
-    ctx.nsym, ctx.nnode = 2 * ctx.M, 2 * ctx.N
+                    if id(s.interface) not in ctx.ifaces and id(o.interface) in ctx.ifaces:
+                        ctx.ifaces[id(s.interface)] = (ctx.ifaces[id(o.interface)][0] + ctx.F, s.interface)
+    ctx.nsym, ctx.nnode, ctx.nif = 2 * ctx.M, 2 * ctx.N, 2 * ctx.F
     ctx.copy_nodes = cn
     ctx.sub_owned = [s for n in node.walk(ScopingNode) for s in n.symbol_table.symbols]
     ctx.copy_owned = [s for n in c.walk(ScopingNode) for s in n.symbol_table.symbols]
@@ -325,6 +360,12 @@ def reachable_syms(ctx, root, owned):
         out.append((s, "table entry"))
         for d in sym_deps(s):
             out.append((d, f"declaration of '{s.name}'"))
+    from psyclone.psyir.nodes import ScopingNode
+    for n in root.walk(ScopingNode):
+        for s in n.symbol_table.argument_list:
+            out.append((s, f"argument list of {type(n).__name__}"))
+        for tag, s in n.symbol_table.get_tags(scope_limit=n).items():
+            out.append((s, f"tag '{tag}' of {type(n).__name__}"))
     return out
 
 
@@ -401,8 +442,9 @@ def apply_real(ctx, ed):
     try:
         if ed[0] == "rename":
             s = ctx.sym_by(ed[1])
-            owner_table(ctx, s).symbol_table.rename_symbol(s, ed[2])
-            return ["rename", ed[1], ctx.name_id(ed[2])]
+            o = owner_table(ctx, s)
+            o.symbol_table.rename_symbol(s, ed[2])
+            return ["rename", ctx.nodes[id(o)][0], ed[1], ctx.name_id(ed[2])]
         if ed[0] == "setdeps":
             s = ctx.sym_by(ed[1])
             s.datatype = mk_type(ctx, ed[2], ed[3])
@@ -415,7 +457,14 @@ def apply_real(ctx, ed):
                 s = p.symbol_table.new_symbol(ed[2], symbol_type=DataSymbol, datatype=mk_type(ctx, ed[3], ed[4]))
             ctx.reg(s, ctx.nsym)
             ctx.nsym += 1
-            return ["addsym", ed[1], ctx.name_id(s.name), [ctx.sid(d) for d in sym_deps(s)]]
+            ctx.ifaces[id(s.interface)] = (ctx.nif, s.interface)
+            ctx.nif += 1
+            return ["addsym", ed[1], ctx.name_id(s.name), [ctx.sid(d) for d in sym_deps(s)], fresh_iface(s)]
+        if ed[0] == "setaccess":
+            from psyclone.psyir.symbols import ArgumentInterface
+            s = ctx.sym_by(ed[1])
+            s.interface.access = ArgumentInterface.Access(ed[2])
+            return ["setaccess", ctx.iid(s), ed[2]]
         if ed[0] == "removesym":
             p, s = ctx.node_by(ed[1]), ctx.sym_by(ed[2])
             p.symbol_table.remove(s)
@@ -466,6 +515,14 @@ def gen_edit(ctx, rng, side, counter):
 
     kindc = rng.choice(["rename"] * 5 + ["setdeps"] * 2 + ["addsym"] * 2 + ["removesym", "setsym", "detach",
                                                                            "detach", "attach", "attach"])
+    if rng.random() < 0.03:
+        # known finding C15-shared-interface: the intent of an argument (interface objects are shared)
+        args = [(i, s) for i, s in usable if s.is_argument and owner_table(ctx, s) is not None
+                and (side == "orig" or in_side_sym(i))]
+        if args:
+            i, s = rng.choice(args)
+            other_acc = [a for a in (1, 2, 3, 4) if a != access_of(s.interface)]
+            return ["setaccess", i, rng.choice(other_acc)]
     if kindc == "rename" and syms:
         # prefer symbols that other declarations depend on (kinds, bounds, initial values)
         used = {id(d) for _, s in ctx.syms.values() for d in sym_deps(s)}
@@ -590,7 +647,7 @@ def run_case(src, tweaks, r, side, edits=None, rng=None, nedits=0, want_model=Tr
                             " changed:\n" + first_diff(before, after),
                 "expected": "unchanged text"}
     if want_model:
-        out["line"] = sx([MODE, w0[0], w0[1], w0[2], r, model_edits])
+        out["line"] = sx([MODE, w0[0], w0[1], w0[2], w0[3], r, model_edits])
     if fail is not None:
         out.update(status="fail", fail=fail)
     return out
@@ -711,7 +768,9 @@ def run(chk):
                 if res2["status"] == "fail":
                     res2["r"] = res["r"]
                     res = dict(res, fail=res2["fail"], applied=res2["applied"])
-            if nviol[0] < 3 and not classified(res):
+            if classified(src, tweaks, side, res):
+                stats["known_finding_cases"] = stats.get("known_finding_cases", 0) + 1
+            elif nviol[0] < 3:
                 nviol[0] += 1
                 chk.violation(payload_of(src, tweaks, res, side))
         if "line" in res:
@@ -726,12 +785,20 @@ def run(chk):
 
     known = common.known_findings("C15")
 
-    def classified(res):
-        # a failing input belongs to a listed finding only if its classifier says so
-        for e in known:
-            if e.get("classifier") == "clause=" + res["fail"]["clause"]:
-                return True
-        return False
+    def classified(src, tweaks, side, res):
+        """C15-shared-interface: the other side's text changed, the edits contain a change of the access of
+        an argument's interface object, and without those edits the text does not change (the model
+        reproduces the change: checked with the correspondence below)"""
+        if not any(e["id"] == "C15-shared-interface" for e in known):
+            return False
+        if res["fail"]["clause"] != "edit_independent":
+            return False
+        eds = res.get("applied", [])
+        rest = [e for e in eds if e[0] != "setaccess"]
+        if len(rest) == len(eds):
+            return False
+        res2 = run_case(src, tweaks, res["r"], side, edits=rest, want_model=False)
+        return res2["status"] == "ok"
 
     # corpus first
     for entry in CORPUS:
